@@ -134,6 +134,7 @@ from gymnasium import spaces as _spaces
 from symx import tensor as _T
 from agilerl.modules.mlp import EvolvableMLP as _MLP
 from agilerl.modules.cnn import EvolvableCNN as _CNN
+from agilerl.modules.multi_input import EvolvableMultiInput as _MI
 from agilerl.networks.actors import StochasticActor as _SActor, DeterministicActor as _DActor
 from agilerl.networks.q_networks import QNetwork as _QNet
 from agilerl.networks.value_networks import ValueNetwork as _VNet
@@ -149,6 +150,8 @@ FACTORIES = {
     "mlp-newgelu": lambda: _MLP(2, 2, [3, 2], activation="GELU", new_gelu=True, min_mlp_nodes=1, max_mlp_nodes=8, min_hidden_layers=1, max_hidden_layers=3),
     "mlp-layernorm-off": lambda: _MLP(2, 2, [3, 2], layer_norm=False, output_activation="Tanh", min_mlp_nodes=1, max_mlp_nodes=8, min_hidden_layers=1, max_hidden_layers=3),
     "cnn": lambda: _CNN([1, 6, 6], 2, [2, 3], [2, 2], [1, 1], min_channel_size=1, max_channel_size=6, min_hidden_layers=1, max_hidden_layers=3),
+    "multi-input": lambda: _MI(_spaces.Dict({"img": _spaces.Box(0, 1, (1, 4, 4), dtype=np.float32), "vec": _spaces.Box(-1, 1, (2,), dtype=np.float32)}), 2, latent_dim=3,
+                               min_latent_dim=1, max_latent_dim=8, cnn_config={"channel_size": [2], "kernel_size": [2], "stride_size": [1]}, vector_space_mlp=False),
     "stochastic-actor-box": lambda: _SActor(_spaces.Box(-1, 1, (2,)), _spaces.Box(-1, 1, (2,)), **_cfg()),
     "stochastic-actor-discrete": lambda: _SActor(_spaces.Box(-1, 1, (2,)), _spaces.Discrete(2), **_cfg()),
     "qnetwork": lambda: _QNet(_spaces.Box(-1, 1, (2,)), _spaces.Discrete(2), **_cfg()),
@@ -219,6 +222,9 @@ class RecreateReal(Case):
         res = []
         new = dict(m.named_parameters())
         res.append(Ob("parameters-that-exist-before-and-after", len(set(new) & set(old)) > 0))
+        if "layer" not in self.method:
+            # a mutation that changes widths only keeps every layer: every parameter keeps its NAME (the copy matches by name)
+            res.append(Ob("every-parameter-keeps-its-name-across-the-rebuild", set(new) == set(old), site=self.site + "/parameter-names"))
         # "the same function" also needs the same parameter-free layers: an activation / normalisation layer that exists
         # under the same name before and after the rebuild is of the same kind
         kinds1 = _leaf_kinds(m)
@@ -256,6 +262,7 @@ _REAL_CASES = [
     ("stochastic-actor-discrete", "add_latent_node", {"numb_new_nodes": 1}), ("qnetwork", "add_latent_node", {"numb_new_nodes": 1}),
     ("qnetwork", "encoder.add_node", {"hidden_layer": 0, "numb_new_nodes": 1}), ("value", "remove_latent_node", {"numb_new_nodes": 1}),
     ("deterministic-actor", "head_net.add_node", {"hidden_layer": 0, "numb_new_nodes": 1}),
+    ("multi-input", "add_latent_node", {"numb_new_nodes": 1}), ("multi-input", "remove_latent_node", {"numb_new_nodes": 1}), ("value", "add_latent_node", {"numb_new_nodes": 1}),
     ("mlp-newgelu", "add_node", {"hidden_layer": 0, "numb_new_nodes": 1}), ("mlp-layernorm-off", "remove_node", {"hidden_layer": 0, "numb_new_nodes": 1}),
 ]
 _orig_cases = cases
